@@ -514,6 +514,7 @@ def processLine (line : String) : String :=
   | "open" :: args => (DriverH.line "open" args impl).getD "bad-op | |"
   | "open0" :: args => (DriverH.line "open" args impl).getD "bad-op | |"
   | "openu" :: args => (DriverH.line "open" args impl).getD "bad-op | |"   -- as an unprivileged process, no lockable memory
+  | "openb" :: args => (DriverH.line "open" args impl).getD "bad-op | |"   -- the segment's name is not valid UTF-8
   | "seg" :: args => (DriverH.line "seg" args impl).getD "bad-op | |"
   | "snap" :: args => (DriverH.line "snap" args impl).getD "bad-op | |"
   | "sandwich" :: args => (DriverH.line "sandwich" args impl).getD "bad-op | |"
